@@ -294,6 +294,9 @@ func c07Container(c *Ctx, fd *ast.FuncDecl, name string, ct *Cont, par types.Obj
 
 // c07Loop checks the element loop of a container isEqual.
 func c07Loop(c *Ctx, v *sxView, l *LoopRec, par types.Object, own types.Type, ct *Cont) string {
+	if r := v.asRange(l); r != nil {
+		l = r
+	}
 	if l.Range == nil || !v.isRecvSpine(l.Over) {
 		return "the element loop does not range over the receiver's own spine"
 	}
